@@ -336,9 +336,9 @@ pub fn run_history(ctx: &Ctx, h: &History, work: &Path, rotate: usize) -> Trace 
                     args.push("--describe".to_string());
                 }
                 args.push("--".to_string());
-                // the program joins its words with one blank: splitting at single blanks is the same query
-                let splittable = !query.contains("  ") && !query.starts_with(' ') && !query.ends_with(' ') && !query.is_empty();
-                if *split && splittable {
+                // the program joins its words with one blank: splitting at every single blank is the
+                // same query (blanks at the ends or doubled give empty words: `any "" 1m` is " 1m")
+                if *split && !query.is_empty() {
                     args.extend(query.split(' ').map(|w| w.to_string()));
                 } else {
                     args.push(query.clone());
@@ -853,6 +853,24 @@ pub fn faithful_decimal(text: &str, num: &str, den: &str) -> Result<(), String> 
     Ok(())
 }
 
+/// `num/den` in lowest terms with a positive denominator.
+pub fn reduced(num: &str, den: &str) -> Result<(String, String), String> {
+    use num::bigint::BigInt;
+    use num::{Integer, Signed, Zero};
+    let n: BigInt = num.parse().map_err(|_| "numerator does not parse".to_string())?;
+    let d: BigInt = den.parse().map_err(|_| "denominator does not parse".to_string())?;
+    if d.is_zero() {
+        return Err("zero denominator".into());
+    }
+    let g = n.gcd(&d);
+    let (mut n, mut d) = if g.is_zero() { (n, d) } else { (&n / &g, &d / &g) };
+    if d.is_negative() {
+        n = -n;
+        d = -d;
+    }
+    Ok((n.to_string(), d.to_string()))
+}
+
 /// What the statement says the program prints for these library results.
 pub fn expected_stdout_lines(results: &[Res], exact: bool) -> Result<Vec<Expect>, String> {
     let mut out = Vec::new();
@@ -860,9 +878,14 @@ pub fn expected_stdout_lines(results: &[Res], exact: bool) -> Result<Vec<Expect>
         match r {
             Res::Ok { num, den, detail, .. } => {
                 let d = detail.as_ref().ok_or("no rendering detail recorded")?;
+                // "the value is one" is decided here from the value, not taken from the library
+                let is_one = reduced(num, den)? == ("1".to_string(), "1".to_string());
                 let mut line = if exact {
+                    // reduced here, by the simulator, from whatever pair the library holds: lowest
+                    // terms, the sign with the numerator
+                    let (num, den) = reduced(num, den)?;
                     if den == "1" {
-                        num.clone()
+                        num
                     } else {
                         format!("{num}/{den}")
                     }
@@ -873,13 +896,13 @@ pub fn expected_stdout_lines(results: &[Res], exact: bool) -> Result<Vec<Expect>
                     line.push(' ');
                 }
                 if d.unit_parts.is_empty() {
-                    line.push_str(if d.is_one { &d.unit_singular } else { &d.unit_plural });
+                    line.push_str(if is_one { &d.unit_singular } else { &d.unit_plural });
                 } else {
                     // numerator parts, then '/' and the denominator parts; the unit name is pluralised
                     // only when it stands alone in the numerator and the value is not one
                     let num: Vec<&UnitPart> = d.unit_parts.iter().filter(|p| p.numerator).collect();
                     let den: Vec<&UnitPart> = d.unit_parts.iter().filter(|p| !p.numerator).collect();
-                    let plural = num.len() == 1 && !d.is_one;
+                    let plural = num.len() == 1 && !is_one;
                     line.push_str(&num.iter().map(|p| if plural { p.plural.as_str() } else { p.singular.as_str() }).collect::<Vec<_>>().join("⋅"));
                     if !den.is_empty() {
                         line.push('/');
